@@ -351,6 +351,8 @@ class Exec:
             v = self.place(env, m.group(1))
             if v[0] == "enum":
                 return ("int", v[2])
+            if v[0] == "variant" and v[1] in self.enums and v[2] in self.enums[v[1]]:
+                return ("int", str(self.enums[v[1]].index(v[2])))          # a value built on this path: its variant is known
             if v[0] == "opaque":
                 k = ("disc", v[1])
                 if k not in self.proj:
@@ -751,6 +753,23 @@ def m_iter_next(ex, argv):
     tag = ex.fresh("Int", "nx")
     ex.side.append(f"(= {tag} (ite (< {k} {n}) 1 0))")
     return ("enum", "Option", tag, {"Some": elem})
+
+
+def m_iter_next_built(ex, argv):
+    """like m_iter_next, but a vector that was created on this path (with_capacity / new) and filled only by push() is iterated
+    as exactly the pushed values, in order (its length is the number of pushes so far)"""
+    if argv and argv[0][0] == "opaque":
+        it = argv[0]
+        src = ex.iter_src.get(it[1], it)
+        if isinstance(src, tuple) and src and src[0] == "opaque":
+            made = any(e[0] == "call" and e[1] in ("with_capacity", "new") and e[3] == src for e in ex.cur_events)
+            pushed = [e[2][1] for e in ex.cur_events if e[0] == "call" and e[1] == "push" and len(e[2]) == 2 and e[2][0] == src]
+            if made:
+                k = sum(1 for e in ex.cur_events if e[0] == "call" and e[1] == "next" and e[2] and e[2][0] == it)
+                tag = ex.fresh("Int", "nx")
+                ex.side.append(f"(= {tag} {1 if k < len(pushed) else 0})")
+                return ("enum", "Option", tag, {"Some": pushed[k] if k < len(pushed) else ex.opq()})
+    return m_iter_next(ex, argv)
 
 
 def m_zip(ex, argv):
